@@ -42,6 +42,10 @@ def _run(args):
         out = [(f.rule, f.key, f.where, f.what) for f in res.findings]
         if res.incomplete:
             out.append(("ANALYSIS-ERROR", "", "", str(res.incomplete)))
+        from cxa.report import confirmed_lost
+        lm = confirmed_lost(p, res)
+        if lm and not res.findings:
+            out.append(("ANALYSIS-ERROR", "", "", lm))
         return p, out
     except AnalysisError as e:
         return p, [("ANALYSIS-ERROR", "", "", str(e))]
